@@ -62,11 +62,26 @@ func tryReplay(e *Engine, prop string, f failure, rp *Replay) {
 type scenario struct {
 	file   string
 	pkgDir string
+	// standsFor names the functions whose contracts are assumed (opaque) in the deductive part and for
+	// which this bounded run on the real code stands in.
+	standsFor string
 }
 
+const treeFns = "node.put/del/read/write/split/spill/rebalance/free, Bucket.spill/rebalance/free/inlineable/write/node, Cursor.search*/seek/node, DB.freepages, the freelist back ends behind freelist.Interface (A-tree, A-cow)"
+
+var modelPrograms = scenario{"zz_model_program_test.go", ".", treeFns}
+
 var propScenario = map[string][]scenario{
-	"C18": {{"c18_maxsize_test.go", "."}},
-	"C19": {{"c19_check_corrupt_test.go", "."}},
+	"C02": {{"c02_reader_txid0_test.go", ".", "regression scenario of the fixed defect D7 (reader at txid 0)"}, modelPrograms},
+	"C09": {{"c02_reader_txid0_test.go", ".", "regression scenario of the fixed defect D7 (reader at txid 0)"}, modelPrograms},
+	"C04": {{"c04_bucket_program_test.go", ".", "Bucket.MoveBucket/DeleteBucket (regression scenarios of D4, D5a, D5b)"}, modelPrograms},
+	"C05": {{"c05_cursor_shape_test.go", ".", "Cursor.first/last/next/prevElem/search* over trees with leaves emptied in the same transaction (regression scenario of D2)"}, modelPrograms},
+	"C07": {{"c04_bucket_program_test.go", ".", "Bucket.DeleteBucket/free (regression scenario of D4)"}, modelPrograms},
+	"C10": {modelPrograms},
+	"C14": {modelPrograms},
+	"C15": {modelPrograms},
+	"C18": {{"c18_maxsize_test.go", ".", "DB.mmap tail, Tx.Commit growth path"}},
+	"C19": {{"c19_check_corrupt_test.go", ".", "Tx.check / recursivelyCheckPages traversal"}},
 }
 
 var propReplay = map[string]replayTemplate{}
@@ -89,7 +104,7 @@ func init() {
 
 // runOverlayTest runs an in-package test (package dir relative to /repo) through an overlay.
 // Returns output and whether the test FAILED (i.e. the violation was reproduced on the real code).
-func runOverlayTest(src, pkgDir string) (string, bool) {
+func runOverlayTest(src, pkgDir string, extraEnv ...string) (string, bool) {
 	dir, err := os.MkdirTemp("", "bbvc-replay")
 	if err != nil {
 		return err.Error(), false
@@ -102,9 +117,10 @@ func runOverlayTest(src, pkgDir string) (string, bool) {
 	data, _ := json.Marshal(ov)
 	ovFile := filepath.Join(dir, "ov.json")
 	os.WriteFile(ovFile, data, 0o644)
-	cmd := exec.Command("go", "test", "-overlay", ovFile, "-vet=off", "-count=1", "-timeout", "120s", "-run", "^TestZZBbvcReplay", "./"+pkgDir)
+	cmd := exec.Command("go", "test", "-overlay", ovFile, "-vet=off", "-count=1", "-timeout", "900s", "-v", "-run", "^TestZZBbvcReplay", "./"+pkgDir)
 	cmd.Dir = repoDir
 	cmd.Env = append(os.Environ(), "GOFLAGS=-mod=mod", "GOPROXY=off", "GOSUMDB=off", "GOTOOLCHAIN=local")
+	cmd.Env = append(cmd.Env, extraEnv...)
 	var buf bytes.Buffer
 	cmd.Stdout = &buf
 	cmd.Stderr = &buf
@@ -124,25 +140,41 @@ func runOverlayTest(src, pkgDir string) (string, bool) {
 // runBounded runs the property's scenario templates as bounded stand-ins on the real code. They are
 // labelled bounded, never counted as discharged. Returns records and the scenarios that failed.
 func runBounded(e *Engine, prop, tier string, seed int, force bool) ([]map[string]interface{}, []map[string]interface{}) {
-	if tier != "thorough" && !force {
-		return nil, nil
-	}
 	var recs, failed []map[string]interface{}
+	programs, ops := 150, 80
+	if tier == "thorough" {
+		programs, ops = 4000, 120
+	}
 	for _, sc := range propScenario[prop] {
 		data, err := os.ReadFile(filepath.Join("/verif/replay_templates", sc.file))
 		if err != nil {
 			continue
 		}
 		t0 := time.Now()
-		out, bad := runOverlayTest(string(data), sc.pkgDir)
+		out, bad := runOverlayTest(string(data), sc.pkgDir, "BBVC_PROP="+prop, fmt.Sprint("BBVC_PROGRAMS=", programs), fmt.Sprint("BBVC_OPS=", ops), fmt.Sprint("VERIF_SEED=", seed))
+		bound := "the fixed scenarios / small-scope enumeration described in the template"
+		if sc.file == modelPrograms.file {
+			bound = fmt.Sprintf("%d seeded random API programs x %d operations (seed %d), page size 4096, <=3 concurrent readers, both freelist back ends", programs, ops, seed)
+		}
+		ran := 0
+		for _, l := range strings.Split(out, "\n") {
+			if strings.HasPrefix(strings.TrimSpace(l), "--- PASS") || strings.HasPrefix(strings.TrimSpace(l), "--- FAIL") {
+				ran++
+			}
+		}
 		rec := map[string]interface{}{
-			"contract": "scenario " + sc.file,
-			"bound":    "small-scope enumeration described in the template (bounded stand-in, not a proof)",
-			"failed":   bad,
-			"wall_s":   time.Since(t0).Seconds(),
+			"contract":   "scenario " + sc.file,
+			"stands_for": sc.standsFor,
+			"bound":      bound + " (bounded stand-in on the real code, not a proof, not counted as discharged)",
+			"tests_run":  ran,
+			"failed":     bad,
+			"wall_s":     time.Since(t0).Seconds(),
+		}
+		if ran == 0 && !bad {
+			rec["note"] = "scenario did not run (build failure?): " + firstLines(out, 8)
 		}
 		if bad {
-			rec["output"] = firstLines(out, 60)
+			rec["output"] = firstLines(out, 80)
 			rec["source"] = string(data)
 			rec["pkg"] = sc.pkgDir
 			failed = append(failed, rec)
